@@ -1,23 +1,605 @@
-(* PROOFS about the models of sync2/atomicvalue.go and sync2/pool.go. *)
+(* PROOFS about the models of sync2/atomicvalue.go and sync2/pool.go
+   (Sync/AtomicPool.v): one invariant of all reachable configurations per
+   model, and the C18 statements derived from them. *)
 From Typ Require Import Lib.Base Sync.AtomicPool.
 
+(* ================================================================== *)
+(*  AtomicValue                                                          *)
+(* ================================================================== *)
 Section AtomicProofs.
   Variable V : Type.
   Variable zero : V.
   Variable eqb : V -> V -> bool.
   Hypothesis eqb_spec : forall x y, eqb x y = true <-> x = y.
 
+  Notation astep := (@astep V zero eqb).
+  Notation arun := (@arun V zero eqb).
+  Notation spec_step := (@spec_step V zero eqb).
+  Notation lin_ev := (@lin_ev V zero eqb).
+  Notation lin_check := (@lin_check V zero eqb).
+  Notation Linearizable := (@Linearizable V zero eqb).
+
+  Lemma eqb_refl x : eqb x x = true.
+  Proof. apply eqb_spec. reflexivity. Qed.
+
+  Lemma res_eqb_refl (r : res V) : res_eqb eqb r r = true.
+  Proof. destruct r as [v| |b]; simpl; auto using eqb_refl. destruct b; reflexivity. Qed.
+
   (* the specification is the register of the property text *)
   Lemma spec_register (s : option V) :
-    spec_step zero eqb s OLoad = (s, RVal (or_zero zero s)) /\
-    (forall v, spec_step zero eqb s (OStore v) = (Some v, RUnit)) /\
-    (forall v, spec_step zero eqb s (OSwap v) = (Some v, RVal (or_zero zero s))) /\
+    spec_step s OLoad = (s, RVal (or_zero zero s)) /\
+    (forall v, spec_step s (OStore v) = (Some v, RUnit)) /\
+    (forall v, spec_step s (OSwap v) = (Some v, RVal (or_zero zero s))) /\
     (forall c old new, s = Some c ->
-       (c = old -> spec_step zero eqb s (OCas old new) = (Some new, RBool true)) /\
-       (c <> old -> spec_step zero eqb s (OCas old new) = (s, RBool false))).
+       (c = old -> spec_step s (OCas old new) = (Some new, RBool true)) /\
+       (c <> old -> spec_step s (OCas old new) = (s, RBool false))).
   Proof.
     repeat split; intros; subst; simpl.
-    - destruct (eqb old old) eqn:E; auto. assert (eqb old old = true) by (apply eqb_spec; auto). congruence.
+    - rewrite eqb_refl. reflexivity.
     - destruct (eqb c old) eqn:E; auto. apply eqb_spec in E. contradiction.
   Qed.
+
+  Lemma nth_error_aset_same (ths : list (athread V)) t th th' :
+    nth_error ths t = Some th -> nth_error (set_athread ths t th') t = Some th'.
+  Proof. revert t; induction ths as [|x r IH]; intros [|t] H; simpl in *; try discriminate; auto. Qed.
+
+  Lemma nth_error_aset_other (ths : list (athread V)) t t' th' :
+    t' <> t -> nth_error (set_athread ths t th') t' = nth_error ths t'.
+  Proof.
+    revert t t'; induction ths as [|x r IH]; intros [|t] [|t'] H; simpl; auto; try congruence.
+  Qed.
+
+  Lemma lin_check_snoc hm e :
+    lin_check (hm ++ [e]) = match lin_check hm with Some st => lin_ev st e | None => None end.
+  Proof. unfold AtomicPool.lin_check. rewrite fold_left_app. reflexivity. Qed.
+
+  (* ---- the invariant ---- *)
+
+  Definition status_of (o : option (athread V)) : status V :=
+    match o with
+    | None => SIdle
+    | Some th =>
+      match a_pc th with
+      | AIdle => SIdle
+      | ACall o => SPending o
+      | ACas2 old new _ | ACasLoad old new => SPending (OCas old new)
+      | ARet r => SDone r
+      end
+    end.
+
+  Definition thread_ok (reg : areg V) (th : athread V) : Prop :=
+    match a_pc th with
+    | ACas2 old new ver =>
+        ver < r_next reg /\ forall b, r_cur reg = Some b -> b_ver b = ver -> eqb (b_val b) old = true
+    | _ => True
+    end.
+
+  Record AInv (c : aconfig V) : Prop := {
+    ai_reg : forall b, r_cur (a_reg c) = Some b -> b_ver b < r_next (a_reg c);
+    ai_threads : forall t th, nth_error (a_threads c) t = Some th -> thread_ok (a_reg c) th;
+    ai_lin : exists st, lin_check (rev (a_trace c)) = Some st /\ l_spec st = prim_load (a_reg c) /\
+               forall t, l_st st t = status_of (nth_error (a_threads c) t)
+  }.
+
+  Lemma ainit_inv progs : AInv (ainit progs).
+  Proof.
+    constructor; simpl.
+    - discriminate.
+    - intros t th H. apply nth_error_In in H. apply in_map_iff in H as (p & <- & _). exact I.
+    - eexists. split; [reflexivity|]. split; [reflexivity|]. intro t. simpl.
+      destruct (nth_error (map (fun p => AThread p AIdle []) progs) t) as [th|] eqn:E; auto.
+      apply nth_error_In in E. apply in_map_iff in E as (p & <- & _). reflexivity.
+  Qed.
+
+  (* an installation makes every remembered box stale *)
+  Lemma thread_ok_install reg v th : (forall b, r_cur reg = Some b -> b_ver b < r_next reg) ->
+    thread_ok reg th -> thread_ok (prim_install v reg) th.
+  Proof.
+    unfold thread_ok. intros Hreg H. destruct (a_pc th); auto. destruct H as (Hlt & _). simpl. split; [lia|].
+    intros b [= <-]. simpl. lia.
+  Qed.
+
+  Lemma threads_after (ths : list (athread V)) t th th' (P : athread V -> Prop) :
+    nth_error ths t = Some th -> (forall t0 th0, nth_error ths t0 = Some th0 -> P th0) -> P th' ->
+    forall t0 th0, nth_error (set_athread ths t th') t0 = Some th0 -> P th0.
+  Proof.
+    intros H HA H' t0 th0 H0. destruct (Nat.eq_dec t0 t) as [->|N].
+    - rewrite (nth_error_aset_same _ _ _ _ H) in H0. injection H0 as <-. exact H'.
+    - rewrite nth_error_aset_other in H0 by exact N. eauto.
+  Qed.
+
+  (* the status table after thread t changed *)
+  Lemma status_after (ths : list (athread V)) t th th' (f : tid -> status V) s :
+    nth_error ths t = Some th -> (forall t0, f t0 = status_of (nth_error ths t0)) ->
+    s = status_of (Some th') ->
+    forall t0, set_st f t s t0 = status_of (nth_error (set_athread ths t th') t0).
+  Proof.
+    intros H Hf Hs t0. unfold set_st. destruct (t0 =? t) eqn:E.
+    - apply Nat.eqb_eq in E. subst t0. rewrite (nth_error_aset_same _ _ _ _ H). exact Hs.
+    - apply Nat.eqb_neq in E. rewrite nth_error_aset_other by exact E. apply Hf.
+  Qed.
+
+  Lemma status_keep (ths : list (athread V)) t th th' (f : tid -> status V) :
+    nth_error ths t = Some th -> (forall t0, f t0 = status_of (nth_error ths t0)) ->
+    status_of (Some th') = status_of (Some th) ->
+    forall t0, f t0 = status_of (nth_error (set_athread ths t th') t0).
+  Proof.
+    intros H Hf Hs t0. destruct (Nat.eq_dec t0 t) as [->|N].
+    - rewrite (nth_error_aset_same _ _ _ _ H), Hs, <- H. apply Hf.
+    - rewrite nth_error_aset_other by exact N. apply Hf.
+  Qed.
+
+  Lemma astep_inv c t ch c' : AInv c -> astep c t ch = Some c' -> AInv c'.
+  Proof.
+    intros [Hreg HT (st & Hchk & Hspec & Hst)] Hs. unfold AtomicPool.astep in Hs.
+    destruct (nth_error (a_threads c) t) as [th|] eqn:Hth; [|discriminate].
+    pose proof (HT _ _ Hth) as Hok. pose proof (Hst t) as Hstt. rewrite Hth in Hstt.
+    destruct c as [reg ths tr]; simpl in *.
+    destruct th as [prog p rets]; simpl in *. unfold thread_ok in Hok; simpl in Hok.
+    destruct p as [|o|old new ver|old new|r]; simpl in Hstt.
+    - (* invocation *)
+      destruct prog as [|o rest]; [discriminate|]. injection Hs as <-.
+      constructor; simpl; [first [exact Hreg|intros ? Hb_; apply Hreg; congruence]| |].
+      + eapply threads_after; eauto; try exact I.
+      + rewrite lin_check_snoc, Hchk. simpl. rewrite Hstt. eexists. split; [reflexivity|]. split; [exact Hspec|].
+        simpl. eapply status_after; eauto.
+    - destruct o as [|v|v|old new].
+      + (* Load *)
+        injection Hs as <-. constructor; simpl; [first [exact Hreg|intros ? Hb_; apply Hreg; congruence]| |].
+        * eapply threads_after; eauto; try exact I.
+        * rewrite lin_check_snoc, Hchk. simpl. rewrite Hstt. eexists. split; [reflexivity|]. simpl. split; [exact Hspec|].
+          eapply status_after; eauto. simpl. rewrite Hspec. reflexivity.
+      + (* Store *)
+        injection Hs as <-. constructor; simpl.
+        * intros b [= <-]. simpl. lia.
+        * eapply threads_after; eauto; try exact I. intros t0 th0 H0. apply thread_ok_install; [first [exact Hreg|intros ? Hb_; apply Hreg; congruence]|eauto].
+        * rewrite lin_check_snoc, Hchk. simpl. rewrite Hstt. eexists. split; [reflexivity|]. simpl. split; [reflexivity|].
+          eapply status_after; eauto.
+      + (* Swap *)
+        injection Hs as <-. constructor; simpl.
+        * intros b [= <-]. simpl. lia.
+        * eapply threads_after; eauto; try exact I. intros t0 th0 H0. apply thread_ok_install; [first [exact Hreg|intros ? Hb_; apply Hreg; congruence]|eauto].
+        * rewrite lin_check_snoc, Hchk. simpl. rewrite Hstt. eexists. split; [reflexivity|]. simpl. split; [reflexivity|].
+          eapply status_after; eauto. simpl. rewrite Hspec. reflexivity.
+      + (* CompareAndSwap, s1 *)
+        unfold prim_cas1 in Hs. destruct (r_cur reg) as [b|] eqn:Hcur.
+        * destruct (eqb (b_val b) old) eqn:Heq; injection Hs as <-; (constructor; simpl; [first [exact Hreg|intros ? Hb_; apply Hreg; congruence]| |]).
+          -- eapply threads_after; eauto. unfold thread_ok; simpl. split; [apply Hreg; first [exact Hcur|reflexivity]|].
+             intros b' Hb' _. rewrite Hcur in Hb'. injection Hb' as <-. exact Heq.
+          -- exists st. split; [exact Hchk|]. split; [exact Hspec|]. eapply status_keep; eauto.
+          -- eapply threads_after; eauto; try exact I.
+          -- exists st. split; [exact Hchk|]. split; [exact Hspec|]. eapply status_keep; eauto.
+        * injection Hs as <-; (constructor; simpl; [first [exact Hreg|intros ? Hb_; apply Hreg; congruence]| |]).
+          -- eapply threads_after; eauto; try exact I.
+          -- exists st. split; [exact Hchk|]. split; [exact Hspec|]. eapply status_keep; eauto.
+    - (* CompareAndSwap, s2 *)
+      destruct Hok as (Hver & Hsame). unfold prim_cas2 in Hs. destruct (r_cur reg) as [b|] eqn:Hcur.
+      + destruct ((b_ver b =? ver) || (ch && eqb (b_val b) old)) eqn:Hc; injection Hs as <-.
+        * (* success: the current value equals old *)
+          assert (Heq : eqb (b_val b) old = true).
+          { apply orb_true_iff in Hc as [Hc|Hc].
+            - apply Nat.eqb_eq in Hc. apply Hsame; auto.
+            - apply andb_true_iff in Hc as (_ & Hc). exact Hc. }
+          constructor; simpl.
+          -- intros b' [= <-]. simpl. lia.
+          -- eapply threads_after; eauto; try exact I. intros t0 th0 H0. apply thread_ok_install; [first [exact Hreg|intros ? Hb_; apply Hreg; congruence]|eauto].
+          -- rewrite lin_check_snoc, Hchk. simpl. rewrite Hstt. simpl. rewrite Hspec. unfold prim_load. rewrite Hcur. simpl.
+             rewrite Heq. eexists. split; [reflexivity|]. simpl. split; [reflexivity|].
+             eapply status_after; eauto.
+        * (* failure of the pointer CAS: no effect, go on to the Load *)
+          constructor; simpl; [first [exact Hreg|intros ? Hb_; apply Hreg; congruence]| |].
+          -- eapply threads_after; eauto; try exact I.
+          -- exists st. split; [exact Hchk|]. split; [exact Hspec|]. eapply status_keep; eauto.
+      + injection Hs as <-. constructor; simpl; [first [exact Hreg|intros ? Hb_; apply Hreg; congruence]| |].
+        * eapply threads_after; eauto; try exact I.
+        * exists st. split; [exact Hchk|]. split; [exact Hspec|]. eapply status_keep; eauto.
+    - (* the Load after a failed atom.CompareAndSwap *)
+      unfold prim_load in Hs, Hspec. destruct (r_cur reg) as [b|] eqn:Hcur; simpl in Hs, Hspec.
+      + destruct (eqb (b_val b) old) eqn:Heq; injection Hs as <-; (constructor; simpl; [first [exact Hreg|intros ? Hb_; apply Hreg; congruence]| |]).
+        * eapply threads_after; eauto; try exact I.
+        * exists st. split; [exact Hchk|]. split; [rewrite Hspec; unfold prim_load; rewrite Hcur; reflexivity|].
+          eapply status_keep; eauto.
+        * eapply threads_after; eauto; try exact I.
+        * rewrite lin_check_snoc, Hchk. simpl. rewrite Hstt. simpl. rewrite Hspec. rewrite Heq.
+          eexists. split; [reflexivity|]. simpl. split; [unfold prim_load; rewrite Hcur; reflexivity|].
+          eapply status_after; eauto.
+      + injection Hs as <-; (constructor; simpl; [first [exact Hreg|intros ? Hb_; apply Hreg; congruence]| |]).
+        * eapply threads_after; eauto; try exact I.
+        * rewrite lin_check_snoc, Hchk. simpl. rewrite Hstt. simpl. rewrite Hspec.
+          eexists. split; [reflexivity|]. simpl. split; [unfold prim_load; rewrite Hcur; reflexivity|].
+          eapply status_after; eauto.
+    - (* return *)
+      injection Hs as <-. constructor; simpl; [first [exact Hreg|intros ? Hb_; apply Hreg; congruence]| |].
+      + eapply threads_after; eauto; try exact I.
+      + rewrite lin_check_snoc, Hchk. simpl. rewrite Hstt. rewrite res_eqb_refl.
+        eexists. split; [reflexivity|]. simpl. split; [exact Hspec|].
+        eapply status_after; eauto.
+  Qed.
+
+  Lemma arun_inv s : forall c, AInv c -> AInv (arun c s).
+  Proof.
+    induction s as [|[t ch] s IH]; intros c H; simpl; auto.
+    apply IH. destruct (astep c t ch) as [c'|] eqn:E; auto. eapply astep_inv; eauto.
+  Qed.
+
+  (* C18, register part: every history of the wrappers is linearizable to the ideal register *)
+  Theorem register_linearizable progs s : Linearizable (ahistory (arun (ainit progs) s)).
+  Proof.
+    destruct (arun_inv s _ (ainit_inv progs)) as [_ _ (st & Hchk & _)].
+    exists (rev (a_trace (arun (ainit progs) s))). split; [reflexivity|]. rewrite Hchk. discriminate.
+  Qed.
+
+  (* the abstract register read off the marks is the value held by atomic.Value *)
+  Theorem register_state progs s :
+    exists st, lin_check (rev (a_trace (arun (ainit progs) s))) = Some st /\
+               l_spec st = prim_load (a_reg (arun (ainit progs) s)).
+  Proof.
+    destruct (arun_inv s _ (ainit_inv progs)) as [_ _ (st & Hchk & Hspec & _)]. eauto.
+  Qed.
 End AtomicProofs.
+
+(* ================================================================== *)
+(*  Pool                                                                 *)
+(* ================================================================== *)
+
+Definition val_eq_dec (a b : val) : {a = b} + {a <> b}.
+Proof. decide equality; apply Nat.eq_dec. Defined.
+Arguments val_eq_dec : simpl never.
+
+Lemma val_eqb_eq a b : val_eqb a b = true <-> a = b.
+Proof.
+  destruct a as [|o k], b as [|o' k']; simpl; split; intro H; try discriminate; auto.
+  - apply andb_true_iff in H as (H1 & H2). apply Nat.eqb_eq in H1, H2. congruence.
+  - injection H as -> ->. rewrite !Nat.eqb_refl. reflexivity.
+Qed.
+
+Lemma val_eqb_refl a : val_eqb a a = true.
+Proof. apply val_eqb_eq. reflexivity. Qed.
+
+Lemma val_eqb_neq a b : a <> b -> val_eqb a b = false.
+Proof. intro N. destruct (val_eqb a b) eqn:E; auto. apply val_eqb_eq in E. contradiction. Qed.
+
+Notation cnt := (count_occ val_eq_dec).
+
+Lemma nth_error_pset_same ths t th th' :
+  nth_error ths t = Some th -> nth_error (set_pthread ths t th') t = Some th'.
+Proof. revert t; induction ths as [|x r IH]; intros [|t] H; simpl in *; try discriminate; auto. Qed.
+
+Lemma nth_error_pset_other ths t t' th' :
+  t' <> t -> nth_error (set_pthread ths t th') t' = nth_error ths t'.
+Proof.
+  revert t t'; induction ths as [|x r IH]; intros [|t] [|t'] H; simpl; auto; try congruence.
+Qed.
+
+Lemma cnt_pset ths t th th' v :
+  nth_error ths t = Some th ->
+  cnt (flat_map thread_vals (set_pthread ths t th')) v + cnt (thread_vals th) v =
+  cnt (flat_map thread_vals ths) v + cnt (thread_vals th') v.
+Proof.
+  revert t; induction ths as [|x r IH]; intros [|t] H; simpl in *; try discriminate.
+  - injection H as ->. rewrite !count_occ_app. lia.
+  - rewrite !count_occ_app. specialize (IH _ H). lia.
+Qed.
+
+Lemma cnt_remove_nth (l : list val) i x v :
+  nth_error l i = Some x -> cnt (remove_nth i l) v + (if val_eq_dec x v then 1 else 0) = cnt l v.
+Proof.
+  revert i; induction l as [|y l IH]; intros [|i] H; simpl in *; try discriminate.
+  - injection H as ->. destruct (val_eq_dec x v); lia.
+  - specialize (IH _ H). destruct (val_eq_dec y v); lia.
+Qed.
+
+Lemma cnt_pos_In (l : list val) v : cnt l v > 0 <-> In v l.
+Proof. symmetry. apply count_occ_In. Qed.
+
+(* events about a value *)
+Lemma pcount_cons f e tr : pcount f (e :: tr) = (if f e then 1 else 0) + pcount f tr.
+Proof. unfold pcount. simpl. destruct (f e); reflexivity. Qed.
+
+(* ---- what is proved about every event, relative to the events before it ---- *)
+Definition bounded (ths : list pthread) (v : val) : Prop :=
+  match v with Zero => True | Tok o k => exists th, nth_error ths o = Some th /\ k < p_fresh th end.
+
+Definition ev_ok (new : bool) (e : pevent) (before : list pevent) : Prop :=
+  match e with
+  | PETake _ v =>
+      (* the item was Put and not handed out (or dropped) since *)
+      new = true /\ pcount (is_take v) before + pcount (is_drop v) before < pcount (is_put v) before
+  | PENew t v =>
+      (* a result of New, never seen before *)
+      new = true /\ (exists k, v = Tok t k) /\ forall e', In e' before -> ev_val e' <> Some v
+  | PERetGet t v src =>
+      match src with
+      | SrcBag => In (PETake t v) before
+      | SrcNew => In (PENew t v) before
+      | SrcZeroNoNew => new = false /\ v = Zero
+      end
+  | _ => True
+  end.
+
+Fixpoint trace_ok (new : bool) (tr : list pevent) : Prop :=
+  match tr with
+  | [] => True
+  | e :: before => ev_ok new e before /\ trace_ok new before
+  end.
+
+Lemma trace_ok_split new later e before : trace_ok new (later ++ e :: before) -> ev_ok new e before.
+Proof. induction later as [|x later IH]; simpl; intros (H1 & H2); auto. Qed.
+
+Definition pc_ok (new : bool) (t : tid) (tr : list pevent) (p : ppc) : Prop :=
+  match p with
+  | GPool | GNew => new = true
+  | GRet v SrcBag => In (PETake t v) tr
+  | GRet v SrcNew => In (PENew t v) tr
+  | GRet v SrcZeroNoNew => new = false /\ v = Zero
+  | _ => True
+  end.
+
+Record PInv (c : pconfig) : Prop := {
+  pi_uniq : forall v, is_tok v -> cnt (all_vals c) v <= 1;
+  pi_bound : forall v, In v (all_vals c) -> bounded (p_threads c) v;
+  pi_tbound : forall e v, In e (p_trace c) -> ev_val e = Some v -> bounded (p_threads c) v;
+  pi_bag : forall v, cnt (p_bag c) v + pcount (is_take v) (p_trace c) + pcount (is_drop v) (p_trace c)
+                     = pcount (is_put v) (p_trace c);
+  pi_pc : forall t th, nth_error (p_threads c) t = Some th -> pc_ok (p_new c) t (p_trace c) (p_pc th);
+  pi_trace : trace_ok (p_new c) (p_trace c)
+}.
+
+Lemma pinit_inv new progs : PInv (pinit new progs).
+Proof.
+  assert (E : forall progs, flat_map thread_vals (map (fun p => PThread p GIdle [] 0 []) progs) = []).
+  { induction progs0 as [|p r IH]; simpl; auto. }
+  constructor; unfold all_vals; simpl; rewrite ?E; simpl; auto.
+  - intros v Hin. destruct Hin.
+  - intros e v Hin. destruct Hin.
+  - intros t th H. apply nth_error_In in H. apply in_map_iff in H as (p & <- & _). exact I.
+Qed.
+
+Lemma bounded_pset ths t th th' v :
+  nth_error ths t = Some th -> p_fresh th <= p_fresh th' -> bounded ths v -> bounded (set_pthread ths t th') v.
+Proof.
+  intros H Hle. destruct v as [|o k]; simpl; auto. intros (th0 & H0 & Hk).
+  destruct (Nat.eq_dec o t) as [->|N].
+  - exists th'. split; [eapply nth_error_pset_same; eauto|]. rewrite H in H0. injection H0 as <-. lia.
+  - exists th0. rewrite nth_error_pset_other by exact N. auto.
+Qed.
+
+Lemma In_flat_pset ths t th th' v :
+  nth_error ths t = Some th -> In v (flat_map thread_vals (set_pthread ths t th')) ->
+  In v (thread_vals th') \/ In v (flat_map thread_vals ths).
+Proof.
+  intros H Hin. apply cnt_pos_In in Hin. pose proof (cnt_pset ths t th th' v H) as E.
+  destruct (Nat.eq_dec (cnt (thread_vals th') v) 0) as [Z|NZ].
+  - right. apply cnt_pos_In. lia.
+  - left. apply cnt_pos_In. lia.
+Qed.
+
+Lemma In_remove_nth {A} (l : list A) i x : In x (remove_nth i l) -> In x l.
+Proof.
+  revert i; induction l as [|y l IH]; intros [|i] H; simpl in *; auto. destruct H as [->|H]; eauto.
+Qed.
+
+(* the pc facts of the other threads survive a longer trace *)
+Lemma pc_ok_mono new t tr e p : pc_ok new t tr p -> pc_ok new t (e :: tr) p.
+Proof. destruct p as [| | | |v [| |]|v]; simpl; auto. Qed.
+
+Lemma pcs_after new ths t th th' tr tr' :
+  nth_error ths t = Some th ->
+  (forall t0 th0, nth_error ths t0 = Some th0 -> pc_ok new t0 tr (p_pc th0)) ->
+  (forall t0 p, pc_ok new t0 tr p -> pc_ok new t0 tr' p) ->
+  pc_ok new t tr' (p_pc th') ->
+  forall t0 th0, nth_error (set_pthread ths t th') t0 = Some th0 -> pc_ok new t0 tr' (p_pc th0).
+Proof.
+  intros H HA Hm H' t0 th0 H0. destruct (Nat.eq_dec t0 t) as [->|N].
+  - rewrite (nth_error_pset_same _ _ _ _ H) in H0. injection H0 as <-. exact H'.
+  - rewrite nth_error_pset_other in H0 by exact N. eauto.
+Qed.
+
+Lemma pc_ok_mono_app new t tr evs p : pc_ok new t tr p -> pc_ok new t (evs ++ tr) p.
+Proof. induction evs as [|e evs IH]; simpl; auto. intro H. apply pc_ok_mono. auto. Qed.
+
+(* One thread step, generically: thread t goes from th to th', the bag from
+   [p_bag c] to bag', the events evs are logged. The obligations are local to
+   the bag and the moving thread. *)
+Lemma inv_update c t th th' bag' evs :
+  PInv c -> nth_error (p_threads c) t = Some th -> p_fresh th <= p_fresh th' ->
+  let ths' := set_pthread (p_threads c) t th' in
+  let tr' := evs ++ p_trace c in
+  (forall v, is_tok v ->
+     cnt bag' v + cnt (thread_vals th') v <= cnt (p_bag c) v + cnt (thread_vals th) v \/
+     (cnt (all_vals c) v = 0 /\ cnt bag' v + cnt (thread_vals th') v <= cnt (p_bag c) v + cnt (thread_vals th) v + 1)) ->
+  (forall v, In v bag' \/ In v (thread_vals th') -> In v (p_bag c) \/ In v (thread_vals th) \/ bounded ths' v) ->
+  (forall e v, In e evs -> ev_val e = Some v -> bounded ths' v) ->
+  (forall v, cnt bag' v + pcount (is_take v) tr' + pcount (is_drop v) tr' = pcount (is_put v) tr') ->
+  pc_ok (p_new c) t tr' (p_pc th') ->
+  trace_ok (p_new c) tr' ->
+  PInv (PConfig (p_new c) bag' ths' tr').
+Proof.
+  intros [HU HB HTB HG HPC HTR] Hth Hle ths' tr' LU LB LT LG LPC LTR.
+  assert (Hthin : forall v, In v (thread_vals th) -> In v (all_vals c)).
+  { intros v Hin. unfold all_vals. apply in_app_iff. right. apply in_flat_map. exists th. split; auto.
+    eapply nth_error_In; eauto. }
+  constructor; simpl; auto.
+  - intros v Hv. unfold all_vals in *; simpl. rewrite count_occ_app.
+    pose proof (cnt_pset (p_threads c) t th th' v Hth) as E. fold ths' in E.
+    specialize (HU v Hv). rewrite count_occ_app in HU.
+    destruct (LU v Hv) as [L|(Z & L)].
+    + lia.
+    + rewrite count_occ_app in Z. lia.
+  - intros v Hin. unfold all_vals in Hin; simpl in Hin. apply in_app_iff in Hin as [Hin|Hin].
+    + destruct (LB v (or_introl Hin)) as [H|[H|H]]; auto.
+      * eapply bounded_pset; eauto. apply HB. unfold all_vals. apply in_app_iff. auto.
+      * eapply bounded_pset; eauto.
+    + destruct (In_flat_pset _ _ _ _ _ Hth Hin) as [H|H].
+      * destruct (LB v (or_intror H)) as [H1|[H1|H1]]; auto.
+        -- eapply bounded_pset; eauto. apply HB. unfold all_vals. apply in_app_iff. auto.
+        -- eapply bounded_pset; eauto.
+      * eapply bounded_pset; eauto. apply HB. unfold all_vals. apply in_app_iff. auto.
+  - intros e v Hin Hv. apply in_app_iff in Hin as [Hin|Hin]; [eapply LT; eauto|].
+    eapply bounded_pset; eauto.
+  - eapply pcs_after; eauto. intros t0 p. apply pc_ok_mono_app.
+Qed.
+
+Ltac counts :=
+  unfold thread_vals; simpl; rewrite ?count_occ_app; simpl;
+  repeat match goal with |- context [val_eq_dec ?a ?b] => destruct (val_eq_dec a b); subst end;
+  try lia; try congruence.
+
+Lemma dec_eqb x v : (if val_eqb x v then 1 else 0) = (if val_eq_dec x v then 1 else 0).
+Proof. destruct (val_eq_dec x v) as [->|N]; [rewrite val_eqb_refl|rewrite val_eqb_neq by exact N]; reflexivity. Qed.
+
+Lemma fresh_unseen c t th :
+  PInv c -> nth_error (p_threads c) t = Some th ->
+  cnt (all_vals c) (Tok t (p_fresh th)) = 0 /\
+  forall e, In e (p_trace c) -> ev_val e <> Some (Tok t (p_fresh th)).
+Proof.
+  intros HI Hth. split.
+  - apply count_occ_not_In. intro Hin. apply (pi_bound _ HI) in Hin. simpl in Hin.
+    destruct Hin as (th0 & H0 & Hk). rewrite Hth in H0. injection H0 as <-. lia.
+  - intros e Hin Hv. pose proof (pi_tbound _ HI _ _ Hin Hv) as Hb. simpl in Hb.
+    destruct Hb as (th0 & H0 & Hk). rewrite Hth in H0. injection H0 as <-. lia.
+Qed.
+
+Lemma pstep_thread_inv c t ch c' : PInv c -> pstep_thread c t ch = Some c' -> PInv c'.
+Proof.
+  intros HI Hs. unfold pstep_thread in Hs.
+  destruct (nth_error (p_threads c) t) as [th|] eqn:Hth; [|discriminate].
+  pose proof (pi_pc _ HI _ _ Hth) as Hpc.
+  pose proof (fresh_unseen _ _ _ HI Hth) as (Hfresh1 & Hfresh2).
+  assert (Hthin : forall v, In v (thread_vals th) -> In v (all_vals c)).
+  { intros v Hin. unfold all_vals. apply in_app_iff. right. apply in_flat_map. exists th. split; auto.
+    eapply nth_error_In; eauto. }
+  assert (Hbagin : forall v, In v (p_bag c) -> In v (all_vals c)).
+  { intros v Hin. unfold all_vals. apply in_app_iff. auto. }
+  assert (Hself : forall th', p_fresh th < p_fresh th' -> bounded (set_pthread (p_threads c) t th') (Tok t (p_fresh th))).
+  { intros th' Hlt. simpl. exists th'. split; [eapply nth_error_pset_same; eauto|exact Hlt]. }
+  destruct th as [prog p held fresh got]; simpl in *.
+  destruct p as [| | | |v src|v].
+  - (* GIdle: the next operation of the program *)
+    destruct prog as [|[|k| |] rest]; [discriminate| | | |].
+    + (* Get invoked *)
+      injection Hs as <-.
+      apply (inv_update c t _ (PThread rest GCheckNew held fresh got) (p_bag c) [PEInvGet t] HI Hth); [simpl; lia|..]; simpl.
+      * intros v _. left. counts.
+      * intros v [H|H]; auto.
+      * intros e v [<-|[]]. discriminate.
+      * intro v. rewrite !pcount_cons. simpl. apply (pi_bag _ HI).
+      * exact I.
+      * split; [exact I|apply (pi_trace _ HI)].
+    + (* Put of a held item *)
+      destruct (nth_error held k) as [x|] eqn:Hk; injection Hs as <-.
+      * pose proof (nth_error_In _ _ Hk) as Hxin.
+        apply (inv_update c t _ (PThread rest (PutCall x) (remove_nth k held) fresh got) (p_bag c) [PEInvPut t x] HI Hth); [simpl; lia|..]; simpl.
+        -- intros v _. left. pose proof (cnt_remove_nth held k x v Hk). counts.
+        -- intros v [H|H]; auto. right. left. unfold thread_vals in *; simpl in *. rewrite app_nil_r.
+           apply in_app_iff in H as [H|[<-|[]]]; auto. eapply In_remove_nth; eauto.
+        -- intros e v [<-|[]] [= <-]. eapply bounded_pset; eauto. apply (pi_bound _ HI). apply Hthin.
+           unfold thread_vals; simpl. rewrite app_nil_r. exact Hxin.
+        -- intro v. rewrite !pcount_cons. simpl. apply (pi_bag _ HI).
+        -- exact I.
+        -- split; [exact I|apply (pi_trace _ HI)].
+      * apply (inv_update c t _ (PThread rest GIdle held fresh got) (p_bag c) [] HI Hth); [simpl; lia|..]; simpl.
+        -- intros v _. left. counts.
+        -- intros v [H|H]; auto.
+        -- intros e v [].
+        -- apply (pi_bag _ HI).
+        -- exact I.
+        -- apply (pi_trace _ HI).
+    + (* Put of a newly allocated item *)
+      injection Hs as <-.
+      apply (inv_update c t _ (PThread rest (PutCall (Tok t fresh)) held (S fresh) got) (p_bag c) [PEInvPut t (Tok t fresh)] HI Hth); [simpl; lia|..]; simpl.
+      * intros v _. destruct (val_eq_dec (Tok t fresh) v) as [<-|N].
+        -- right. split; [exact Hfresh1|]. counts.
+        -- left. counts.
+      * intros v [H|H]; auto. unfold thread_vals in *; simpl in *. rewrite app_nil_r.
+        apply in_app_iff in H as [H|[<-|[]]]; auto. right. right. apply (Hself (PThread rest (PutCall (Tok t fresh)) held (S fresh) got)). simpl. lia.
+      * intros e v [<-|[]] [= <-]. apply (Hself (PThread rest (PutCall (Tok t fresh)) held (S fresh) got)). simpl. lia.
+      * intro v. rewrite !pcount_cons. simpl. apply (pi_bag _ HI).
+      * exact I.
+      * split; [exact I|apply (pi_trace _ HI)].
+    + (* Put of the zero value *)
+      injection Hs as <-.
+      apply (inv_update c t _ (PThread rest (PutCall Zero) held fresh got) (p_bag c) [PEInvPut t Zero] HI Hth); [simpl; lia|..]; simpl.
+      * intros v Hv. left. destruct v; [contradiction|]. counts.
+      * intros v [H|H]; auto. unfold thread_vals in *; simpl in *. rewrite app_nil_r.
+        apply in_app_iff in H as [H|[<-|[]]]; auto; right; right; exact I.
+      * intros e v [<-|[]] [= <-]. exact I.
+      * intro v. rewrite !pcount_cons. simpl. apply (pi_bag _ HI).
+      * exact I.
+      * split; [exact I|apply (pi_trace _ HI)].
+  - (* GCheckNew: if p.New == nil *)
+    destruct (p_new c) eqn:Hnew; injection Hs as <-; rewrite <- Hnew.
+    + apply (inv_update c t _ (PThread prog GPool held fresh got) (p_bag c) [] HI Hth); [simpl; lia|..]; simpl.
+      * intros v _. left. counts.
+      * intros v [H|H]; auto.
+      * intros e v [].
+      * apply (pi_bag _ HI).
+      * exact Hnew.
+      * apply (pi_trace _ HI).
+    + apply (inv_update c t _ (PThread prog (GRet Zero SrcZeroNoNew) held fresh got) (p_bag c) [] HI Hth); [simpl; lia|..]; simpl.
+      * intros v Hv. left. destruct v; [contradiction|]. counts.
+      * intros v [H|H]; auto. unfold thread_vals in *; simpl in *. rewrite app_nil_r.
+        apply in_app_iff in H as [H|[<-|[]]]; auto; right; right; exact I.
+      * intros e v [].
+      * apply (pi_bag _ HI).
+      * split; [exact Hnew|reflexivity].
+      * apply (pi_trace _ HI).
+  - (* GPool: x := p.pool.Get() *)
+    simpl in Hpc. destruct ch as [i|].
+    + destruct (nth_error (p_bag c) i) as [x|] eqn:Hi; [|discriminate]. injection Hs as <-.
+      pose proof (nth_error_In _ _ Hi) as Hxin.
+      apply (inv_update c t _ (PThread prog (GRet x SrcBag) held fresh got) (remove_nth i (p_bag c)) [PETake t x] HI Hth); [simpl; lia|..]; simpl.
+      * intros v _. left. pose proof (cnt_remove_nth (p_bag c) i x v Hi). counts.
+      * intros v [H|H]; [left; eapply In_remove_nth; eauto|]. unfold thread_vals in *; simpl in *. rewrite app_nil_r.
+        apply in_app_iff in H as [H|[<-|[]]]; auto.
+      * intros e v [<-|[]] [= <-]. eapply bounded_pset; eauto. apply (pi_bound _ HI). auto.
+      * intro v. rewrite !pcount_cons. simpl. rewrite dec_eqb.
+        pose proof (cnt_remove_nth (p_bag c) i x v Hi). pose proof (pi_bag _ HI v). lia.
+      * left. reflexivity.
+      * split; [|apply (pi_trace _ HI)]. split; [exact Hpc|].
+        pose proof (pi_bag _ HI x). assert (cnt (p_bag c) x > 0) by (apply cnt_pos_In; exact Hxin). lia.
+    + injection Hs as <-.
+      apply (inv_update c t _ (PThread prog GNew held fresh got) (p_bag c) [PEMiss t] HI Hth); [simpl; lia|..]; simpl.
+      * intros v _. left. counts.
+      * intros v [H|H]; auto.
+      * intros e v [<-|[]]. discriminate.
+      * intro v. rewrite !pcount_cons. simpl. apply (pi_bag _ HI).
+      * exact Hpc.
+      * split; [exact I|apply (pi_trace _ HI)].
+  - (* GNew: p.New() *)
+    simpl in Hpc. injection Hs as <-.
+    apply (inv_update c t _ (PThread prog (GRet (Tok t fresh) SrcNew) held (S fresh) got) (p_bag c) [PENew t (Tok t fresh)] HI Hth); [simpl; lia|..]; simpl.
+    + intros v _. destruct (val_eq_dec (Tok t fresh) v) as [<-|N].
+      * right. split; [exact Hfresh1|]. counts.
+      * left. counts.
+    + intros v [H|H]; auto. unfold thread_vals in *; simpl in *. rewrite app_nil_r.
+      apply in_app_iff in H as [H|[<-|[]]]; auto. right. right.
+      apply (Hself (PThread prog (GRet (Tok t fresh) SrcNew) held (S fresh) got)). simpl. lia.
+    + intros e v [<-|[]] [= <-]. apply (Hself (PThread prog (GRet (Tok t fresh) SrcNew) held (S fresh) got)). simpl. lia.
+    + intro v. rewrite !pcount_cons. simpl. apply (pi_bag _ HI).
+    + left. reflexivity.
+    + split; [|apply (pi_trace _ HI)]. split; [exact Hpc|]. split; [eauto|exact Hfresh2].
+  - (* GRet: return *)
+    simpl in Hpc. injection Hs as <-.
+    apply (inv_update c t _ (PThread prog GIdle (held ++ [v]) fresh (got ++ [v])) (p_bag c) [PERetGet t v src] HI Hth); [simpl; lia|..]; simpl.
+    + intros v0 _. left. counts.
+    + intros v0 [H|H]; auto. right. left. unfold thread_vals in *; simpl in *. rewrite app_nil_r in H. exact H.
+    + intros e v0 [<-|[]] [= <-]. eapply bounded_pset; eauto. apply (pi_bound _ HI). apply Hthin.
+      unfold thread_vals; simpl. apply in_app_iff. right. left. reflexivity.
+    + intro v0. rewrite !pcount_cons. simpl. apply (pi_bag _ HI).
+    + exact I.
+    + split; [|apply (pi_trace _ HI)]. destruct src; exact Hpc.
+  - (* PutCall: p.pool.Put(x) *)
+    injection Hs as <-.
+    apply (inv_update c t _ (PThread prog GIdle held fresh got) (v :: p_bag c) [PEPut t v] HI Hth); [simpl; lia|..]; simpl.
+    + intros v0 _. left. counts.
+    + intros v0 [[<-|H]|H]; auto.
+      * right. left. unfold thread_vals; simpl. apply in_app_iff. right. left. reflexivity.
+      * right. left. unfold thread_vals in *; simpl in *. rewrite app_nil_r in H. apply in_app_iff. auto.
+    + intros e v0 [<-|[]] [= <-]. eapply bounded_pset; eauto. apply (pi_bound _ HI). apply Hthin.
+      unfold thread_vals; simpl. apply in_app_iff. right. left. reflexivity.
+    + intro v0. rewrite !pcount_cons. simpl. rewrite dec_eqb. pose proof (pi_bag _ HI v0).
+      destruct (val_eq_dec v v0); lia.
+    + exact I.
+    + split; [exact I|apply (pi_trace _ HI)].
+Qed.
